@@ -16,6 +16,7 @@ RULE = (
     'class (one scale <=0, or a non-positive output for lognorm), optional ReducedErrorModel with '
     'a fixed subset). Non-trivial: in support, n_obs>=2 with pairwise distinct outputs, every '
     'residual != 0 and no sigma == 1. Distinct = distinct (kind,n_obs,p,oos,fixed-subset) tuples.')
+RULE += (' ' + "Added classes: constant+multiplicative model at negative model outputs with positive total scale; the caller's float64 arrays are passed twice and must stay unchanged (second call gives the same result).")
 ASSUMPTIONS = [
     'reference log-densities are written from the class docstrings (vf/ref.py) and cross-checked '
     'by numerical normalisation with scipy.integrate.quad',
